@@ -35,7 +35,9 @@ fn esc(s: &str) -> String {
 
 fn loc(tcx: TyCtxt<'_>, span: rustc_span::Span) -> (String, usize, bool) {
     let sm = tcx.sess.source_map();
-    let exp = span.from_expansion();
+    // `exp` = written by a macro (quote!, vec!, debug_assert!, derives); compiler desugarings (`for`, `?`) are the user's own code
+    let exp = span.from_expansion()
+        && !matches!(span.ctxt().outer_expn_data().kind, rustc_span::ExpnKind::Desugaring(_));
     let sp = if exp { span.source_callsite() } else { span };
     let lo = sm.lookup_char_pos(sp.lo());
     let name = format!("{}", lo.file.name.prefer_local_unconditionally());
@@ -117,8 +119,8 @@ impl rustc_driver::Callbacks for Cb {
                             let (f, l, e) = loc(tcx, body.basic_blocks[succ].terminator().source_info.span);
                             let _ = writeln!(
                                 out,
-                                "{{\"k\":\"backedge\",\"caller\":\"{}\",\"file\":\"{}\",\"line\":{},\"exp\":{}}}",
-                                esc(&caller), esc(&f), l, e
+                                "{{\"k\":\"backedge\",\"caller\":\"{}\",\"hdr\":{},\"file\":\"{}\",\"line\":{},\"exp\":{}}}",
+                                esc(&caller), succ.index(), esc(&f), l, e
                             );
                         }
                     }
